@@ -43,6 +43,79 @@ def nibble_parts(e):
     return None
 
 
+def check_sketch_cells(rep, fl, rule="R13.4", fold=True):
+    """increment and estimate address the same cell of every row, and that cell index is masked by
+    self.mask (so it is inside the row: premise of the audited index in CountMinRow::get/increment)."""
+    facts = fl.facts
+    # ---- R13.4 rows indexed identically by increment and estimate ------------------------------
+    sinc = facts.body(CMS + "::increment")
+    sest = facts.body(CMS + "::estimate")
+    depth = facts.const_value("sketch::DEPTH")
+    cells = {}
+    for b, rowm in ((sinc, "increment"), (sest, "get")):
+        it = single_iteration(facts, b)
+        if it is None:
+            rep.bad(rule, fl, b, "per-row iteration", "no per-row iteration (one loop / for_each over 0..DEPTH) in CountMinSketch::%s" % b.name)
+            continue
+        rng = it.source
+        okrange = rng[0] == "agg" and rng[2].endswith("Range::Range") and rng[3][0] == ("const", 0, "usize") and rng[3][1] == ("const", depth, "usize")
+        rep.check(okrange, rule, fl, b, "rows 0..DEPTH", "all %d rows are visited" % depth, "row range is %s, DEPTH is %d" % (show(rng), depth), loc=it.nt["sp"])
+        inner = it.calls_to(ROW + "::" + rowm)
+        if len(inner) != 1:
+            rep.bad(rule, fl, b, "row call", "expected one CountMinRow::%s call per row" % rowm)
+            continue
+        a = [it.canon(x) for x in it.body.call_args(inner[0][1])]
+        cells[b.name] = (a[0], a[1], it, inner[0])
+        rep.check(it.every_round([inner[0][0]]), rule, fl, b, "every row", "the row operation runs for every visited row", "a row can be skipped")
+    if len(cells) == 2:
+        ri, ii = cells["increment"][0], cells["increment"][1]
+        re_, ie = cells["estimate"][0], cells["estimate"][1]
+        hashed = V("hashed")
+        want_row = ("index", norm(F(V("self"), "rows")), ("elem",))
+        mask = norm(F(V("self"), "mask"))
+        seed = norm(("index", F(V("self"), "seeds"), ("elem",)))
+        masked = ii[0] == "bin" and ii[1] == "BitAnd" and mask in (ii[2], ii[3])
+        rep.check(ri == re_ == want_row and ii == ie and masked and mentions(ii, hashed) and mentions(ii, seed), rule, fl, CMS, "cell(row,hash)",
+                  "increment and estimate address the same cell rows[i][f(hashed, seeds[i]) & mask]: %s" % show(ii),
+                  "increment uses %s / %s, estimate uses %s / %s; expected the same cell of rows[i] in both, derived from hashed and seeds[i] and masked by self.mask "
+                  "(an unmasked index leaves the row: panic in the caller or the policy worker)" % (show(ri), show(ii), show(re_), show(ie)))
+        if not fold:
+            return
+        # estimate is a minimum fold
+        it = cells["estimate"][2]
+        fb = it.body
+        at2, entry2 = dataflow(fb)
+        val_tgt = place_target(fb, cells["estimate"][3][1]["dest"])
+        # writes, inside the loop, to a variable declared outside it
+        mins = []
+        for x in sorted(it.region):
+            for y, st2 in enumerate(fb.blocks[x]["stmts"]):
+                if st2["k"] != "assign":
+                    continue
+                tg = place_target(fb, st2["pl"])
+                if tg is None or tg[0] != "var" or tg in it.elem_vars:
+                    continue
+                l = fb.name_local.get(tg[1])
+                if l is not None and any(d[0] not in it.region for d in fb.defs.get(l, [])):
+                    mins.append((x, y, st2))
+        okm = len(mins) == 1
+        if okm:
+            x, y, st2 = mins[0]
+            mvar = place_target(fb, st2["pl"])
+            want = ("atom", ("bin", "Lt", val_tgt, mvar))
+            wv = norm(fb.rvalue_expr(st2["rv"], True))
+            okm = all(feval(want, s) is True for s in entry2.get(x, set())) and (wv == norm(fb.expand(val_tgt)) or wv == val_tgt or norm(fb.expand(wv)) == norm(fb.expand(val_tgt)))
+            # and the not-smaller edge leaves min untouched (only one write) ; initial value >= 15
+            ml = fb.name_local.get(mvar[1])
+            init = [norm(fb.def_expr(a_, b_, True)) for a_, b_ in fb.defs.get(ml, []) if a_ not in it.region] if ml is not None else []
+            okinit = len(init) == 1 and init[0][0] == "const" and init[0][1] >= 15
+            rep.check(okinit, rule, fl, sest, "min init", "the fold starts at a value >= 15 (%s)" % (init[0][1] if init else "?"), "min starts at %s: estimates would be capped below the counters" % [show(z) for z in init])
+            ret = norm(return_expr(fb))
+            rep.check(strip_casts(ret) == mvar, rule, fl, sest, "returns min", "estimate returns the folded minimum", "estimate returns %s" % show(ret))
+        rep.check(okm, rule, fl, sest, "min fold", "min = val only when val < min: the estimate is the minimum over the rows", "the per-row fold is not `if val < min { min = val }`")
+
+
+
 def check_C13(rep, fl):
     facts = fl.facts
     get = facts.body(ROW + "::get")
@@ -104,18 +177,18 @@ def check_C13(rep, fl):
     # ---- R13.3 reset / clear ---------------------------------------------------------------
     for meth, want in (("reset", "halve"), ("clear", "zero")):
         b = facts.body(ROW + "::" + meth)
-        r = for_each_body(facts, b)
-        if r is None:
-            rep.bad("R13.3", fl, b, "for_each", "CountMinRow::%s does not iterate its bytes with for_each" % meth)
+        it = single_iteration(facts, b)
+        if it is None:
+            rep.bad("R13.3", fl, b, "iteration", "CountMinRow::%s does not iterate its bytes (one loop / for_each over self.0)" % meth)
             continue
-        cbi, ct, cb = r
-        recv = norm(b.call_args(ct)[0])
+        fb = it.body
+        recv = it.source
         okr = is_call(recv, "iter_mut") and norm(recv[2][0]) == norm(F(V("self"), "0"))
         rep.check(okr, "R13.3", fl, b, "iterates all bytes", "%s visits every byte of the row (self.0.iter_mut())" % meth, "%s iterates %s" % (meth, show(recv)))
-        ws = [(x, y, st2) for x in cb.live_blocks() for y, st2 in enumerate(cb.blocks[x]["stmts"]) if st2["k"] == "assign" and "*" in st2["pl"]["p"]]
-        v = elem_of_closure(cb)
-        okw = len(ws) == 1 and place_target(cb, ws[0][2]["pl"]) == v
-        val = norm(cb.rvalue_expr(ws[0][2]["rv"], True)) if ws else None
+        ws = it.deref_writes()
+        okw = len(ws) == 1 and it.is_elem(place_target(fb, ws[0][2]["pl"]))
+        val = it.canon(fb.rvalue_expr(ws[0][2]["rv"], True)) if ws else None
+        v = ("elem",)
         if want == "halve":
             wantv = norm(("bin", "BitAnd", ("bin", "Shr", v, ("const", 1, "i32")), ("const", 0x77, "u8")))
             okv = val == wantv
@@ -123,71 +196,19 @@ def check_C13(rep, fl):
         else:
             okv = val == ("const", 0, "u8")
             desc = "*v = 0"
-        rep.check(okw and okv and must_pass_through(cb, [ws[0][0]] if ws else []), "R13.3", fl, cb, meth, desc, "%s writes %s; expected %s" % (meth, show(val) if val else "nothing", desc))
+        rep.check(okw and okv and it.every_round([ws[0][0]] if ws else []) and must_pass_through(fb, [it.nbi]), "R13.3", fl, b, meth, desc, "%s writes %s; expected %s" % (meth, show(val) if val else "nothing", desc))
     for meth in ("reset", "clear"):
         b = facts.body(CMS + "::" + meth)
-        r = for_each_body(facts, b)
+        it = single_iteration(facts, b)
         ok = False
-        if r is not None:
-            cbi, ct, cb = r
-            recv = norm(b.call_args(ct)[0])
-            inner = calls_to(cb, ROW + "::" + meth)
+        if it is not None:
+            recv = it.source
+            inner = it.calls_to(ROW + "::" + meth)
             ok = is_call(recv, "iter_mut") and norm(recv[2][0]) == norm(F(V("self"), "rows")) and len(inner) == 1 and \
-                norm(cb.call_args(inner[0][1])[0]) == elem_of_closure(cb) and must_pass_through(cb, [inner[0][0]])
+                it.is_elem(it.body.call_args(inner[0][1])[0]) and it.every_round([inner[0][0]]) and must_pass_through(it.body, [it.nbi])
         rep.check(ok, "R13.3", fl, b, "all rows", "CountMinSketch::%s applies row.%s() to every row" % (meth, meth), "CountMinSketch::%s does not %s every row" % (meth, meth))
 
-    # ---- R13.4 rows indexed identically by increment and estimate ------------------------------
-    sinc = facts.body(CMS + "::increment")
-    sest = facts.body(CMS + "::estimate")
-    depth = facts.const_value("sketch::DEPTH")
-    cells = {}
-    for b, rowm in ((sinc, "increment"), (sest, "get")):
-        r = for_each_body(facts, b)
-        if r is None:
-            rep.bad("R13.4", fl, b, "for_each", "no per-row for_each in CountMinSketch::%s" % b.name)
-            continue
-        cbi, ct, cb = r
-        rng = norm(b.call_args(ct)[0])
-        okrange = rng[0] == "agg" and rng[2].endswith("Range::Range") and rng[3][0] == ("const", 0, "usize") and rng[3][1] == ("const", depth, "usize")
-        rep.check(okrange, "R13.4", fl, b, "rows 0..DEPTH", "all %d rows are visited" % depth, "row range is %s, DEPTH is %d" % (show(rng), depth), loc=ct["sp"])
-        inner = calls_to(cb, ROW + "::" + rowm)
-        if len(inner) != 1:
-            rep.bad("R13.4", fl, cb, "row call", "expected one CountMinRow::%s call per row" % rowm)
-            continue
-        a = [in_parent_terms(facts, cb, x) for x in cb.call_args(inner[0][1])]
-        a = [norm(subst(x, {elem_of_closure(cb): ("elem",)})) for x in a]
-        cells[b.name] = (a[0], a[1], cb, inner[0])
-        rep.check(must_pass_through(cb, [inner[0][0]]), "R13.4", fl, cb, "every row", "the row operation runs for every visited row", "a row can be skipped")
-    if len(cells) == 2:
-        ri, ii = cells["increment"][0], cells["increment"][1]
-        re_, ie = cells["estimate"][0], cells["estimate"][1]
-        hashed = V("hashed")
-        want_row = ("index", norm(F(V("self"), "rows")), ("elem",))
-        want_i = norm(("bin", "BitAnd", ("bin", "BitXor", hashed, ("index", F(V("self"), "seeds"), ("elem",))), F(V("self"), "mask")))
-        rep.check(ri == re_ == want_row and ii == ie == want_i, "R13.4", fl, CMS, "cell(row,hash)",
-                  "increment and estimate address rows[i] at (hashed ^ seeds[i]) & mask",
-                  "increment uses %s / %s, estimate uses %s / %s; expected rows[i] at (hashed ^ seeds[i]) & mask" % (show(ri), show(ii), show(re_), show(ie)))
-        # estimate is a minimum fold
-        cb = cells["estimate"][2]
-        at2, entry2 = dataflow(cb)
-        val_tgt = place_target(cb, cells["estimate"][3][1]["dest"])
-        mins = [(x, y, st2) for x in cb.live_blocks() for y, st2 in enumerate(cb.blocks[x]["stmts"])
-                if st2["k"] == "assign" and place_target(cb, st2["pl"]) is not None and place_target(cb, st2["pl"])[0] == "var"
-                and place_target(cb, st2["pl"])[1] not in cb.name_local]
-        okm = len(mins) == 1
-        if okm:
-            x, y, st2 = mins[0]
-            mvar = place_target(cb, st2["pl"])
-            want = ("atom", ("bin", "Lt", val_tgt, mvar))
-            okm = all(feval(want, s) is True for s in entry2.get(x, set())) and norm(cb.rvalue_expr(st2["rv"], True)) == norm(cb.expand(val_tgt))
-            # and the not-smaller edge leaves min untouched (only one write) ; initial value >= 15
-            ml = sest.name_local.get(mvar[1])
-            init = [norm(sest.def_expr(a_, b_, True)) for a_, b_ in sest.defs.get(ml, [])] if ml is not None else []
-            okinit = len(init) == 1 and init[0][0] == "const" and init[0][1] >= 15
-            rep.check(okinit, "R13.4", fl, sest, "min init", "the fold starts at a value >= 15 (%s)" % (init[0][1] if init else "?"), "min starts at %s: estimates would be capped below the counters" % [show(z) for z in init])
-            ret = norm(return_expr(sest))
-            rep.check(strip_casts(ret) == mvar, "R13.4", fl, sest, "returns min", "estimate returns the folded minimum", "estimate returns %s" % show(ret))
-        rep.check(okm, "R13.4", fl, cb, "min fold", "min = val only when val < min: the estimate is the minimum over the rows", "the per-row fold is not `if val < min { min = val }`")
+    check_sketch_cells(rep, fl)
 
     # ---- R13.5 sizing -----------------------------------------------------------------------
     check_sketch_sizing(rep, fl, "R13.5")
@@ -369,13 +390,12 @@ def check_tinylfu(rep, fl):
         rep.check(ok, "R13.6", fl, b, meth, "%s: w = 0, doorkeeper.%s(), ctr.%s()" % (meth, dkm, cm), "TinyLFU::%s does not reset w, the doorkeeper and the sketch" % meth)
     # increments -> increment per element
     b = facts.body(TLFU + "::increments")
-    r = for_each_body(facts, b)
+    it = single_iteration(facts, b)
     ok = False
-    if r:
-        cbi, ct, cb2 = r
-        recv = norm(b.call_args(ct)[0])
-        c = calls_to(cb2, TLFU + "::increment")
-        ok = is_call(recv, "iter") and recv[2][0] == V("khs") and len(c) == 1 and norm(cb2.call_args(c[0][1])[1]) == elem_of_closure(cb2) and must_pass_through(cb2, [c[0][0]])
+    if it is not None:
+        recv = it.source
+        c = it.calls_to(TLFU + "::increment")
+        ok = is_call(recv, "iter") and recv[2][0] == V("khs") and len(c) == 1 and it.is_elem(it.body.call_args(c[0][1])[1]) and it.every_round([c[0][0]])
     rep.check(ok, "R13.6", fl, b, "increments", "increments(khs) records every element", "increments does not call increment for every element of the batch")
 
 
@@ -423,25 +443,22 @@ def check_C14(rep, fl):
     add = facts.body(BLOOM + "::add")
     con = facts.body(BLOOM + "::contains")
     # ---- R14.1 add and contains visit the same positions ------------------------------------
-    r = for_each_body(facts, add)
-    pos_add = None
-    if r:
-        cbi, ct, cb = r
-        sc = calls_to(cb, BLOOM + "::set")
+    pos_add = pos_con = None
+    rng_add = rng_con = None
+    ita = single_iteration(facts, add)
+    if ita is not None:
+        sc = ita.calls_to(BLOOM + "::set")
         if len(sc) == 1:
-            e = in_parent_terms(facts, cb, cb.call_args(sc[0][1])[1])
-            pos_add = norm(subst(e, {elem_of_closure(cb): ("elem",)}))
-            rng_add = norm(add.call_args(ct)[0])
-            rep.check(must_pass_through(cb, [sc[0][0]]), "R14.1", fl, cb, "set every loc", "every probe position is set", "a probe position can be skipped in add")
-    if pos_add is None:
-        # a plain for loop
-        sc = calls_to(add, BLOOM + "::set")
-        if len(sc) == 1:
-            pos_add, rng_add = loop_pos(add, sc[0][1])
-    ic = calls_to(con, BLOOM + "::is_set")
-    pos_con = None
-    if len(ic) == 1:
-        pos_con, rng_con = loop_pos(con, ic[0][1])
+            pos_add = ita.canon(ita.body.call_args(sc[0][1])[1])
+            rng_add = ita.source
+            rep.check(ita.every_round([sc[0][0]]), "R14.1", fl, add, "set every loc", "every probe position is set", "a probe position can be skipped in add")
+    itc = single_iteration(facts, con)
+    if itc is not None:
+        ic = itc.calls_to(BLOOM + "::is_set")
+        if len(ic) == 1:
+            pos_con = itc.canon(itc.body.call_args(ic[0][1])[1])
+            rng_con = itc.source
+    con = facts.flat(con)
     if pos_add is None or pos_con is None:
         rep.missing("R14.1", fl, "Bloom::add / contains: probe position expression not found")
     else:
@@ -506,14 +523,13 @@ def check_C14(rep, fl):
               "bitset is also written by %s" % sorted(writers - allowed))
     for meth in ("reset", "clear"):
         b = facts.body(BLOOM + "::" + meth)
-        r = for_each_body(facts, b)
+        it = single_iteration(facts, b)
         ok = False
-        if r:
-            cbi, ct, cb = r
-            recv = norm(b.call_args(ct)[0])
-            ws = [(x, st2) for x in cb.live_blocks() for st2 in cb.blocks[x]["stmts"] if st2["k"] == "assign" and "*" in st2["pl"]["p"]]
+        if it is not None:
+            recv = it.source
+            ws = it.deref_writes()
             ok = is_call(recv, "iter_mut") and norm(recv[2][0]) == norm(F(V("self"), "bitset")) and len(ws) == 1 and \
-                norm(cb.rvalue_expr(ws[0][1]["rv"], True)) == ("const", 0, "u64") and place_target(cb, ws[0][1]["pl"]) == elem_of_closure(cb) and must_pass_through(cb, [ws[0][0]])
+                norm(it.body.rvalue_expr(ws[0][2]["rv"], True)) == ("const", 0, "u64") and it.is_elem(place_target(it.body, ws[0][2]["pl"])) and it.every_round([ws[0][0]]) and must_pass_through(it.body, [it.nbi])
         rep.check(ok, "R14.4", fl, b, "zero all words", "%s zeroes every word of the bit array" % meth, "Bloom::%s does not zero every word" % meth)
     # ---- R14.5 sizing ---------------------------------------------------------------------------
     check_bloom_sizing(rep, fl, so if so is not None else None)
@@ -618,6 +634,11 @@ def check_bloom_sizing(rep, fl, set_off):
                 nl = gs.name_local.get(nvar[1])
                 for a_, b_ in gs.defs.get(nl, []):
                     d = norm(gs.def_expr(a_, b_, False))
+                    if (is_call(d, "Ord::max") or is_call(d, "cmp::max") or is_call(d, "max")) and len(d[2]) == 2:
+                        # `let n = n.max(C)`: the same clamp written with the combinator
+                        cs = [x for x in d[2] if x[0] == "const" and isinstance(x[1], int)]
+                        if len(cs) == 1:
+                            min_n = cs[0][1]
                     if d[0] == "const":
                         sts = at.get((a_, b_), set())
                         if all(feval(("atom", ("bin", "Lt", nvar, d)), s) is True for s in sts):
